@@ -14,6 +14,7 @@ open PMV
 
 inductive Val
   | none | bool (b : Bool) | int (n : Int) | str (s : String)
+  | mod (name : String)          -- what an import binds: opaque
   deriving DecidableEq, Repr, Inhabited
 
 /-- `str(v)` as `print` shows it -/
@@ -23,12 +24,14 @@ def Val.show : Val → String
   | .bool false => "False"
   | .int n => toString n
   | .str s => s
+  | .mod n => "<module " ++ n ++ ">"
 
 def Val.truthy : Val → Bool
   | .none => false
   | .bool b => b
   | .int n => n != 0
   | .str s => s != ""
+  | .mod _ => true
 
 def Val.asInt : Val → Option Int
   | .int n => some n
@@ -48,6 +51,7 @@ structure St where
   locals : Option Env        -- some inside a function call
   declGlobal : List String   -- names declared `global` in the running function
   out : List String
+  imports : List String := []   -- the import events so far, in order (module and bound name)
   deriving Repr
 
 def St.lookup (s : St) (x : String) : Option Val :=
@@ -110,7 +114,10 @@ def evalE (s : St) : Expr → Option (Except String Val)
   | .constant (.str _ cps) => some (.ok (.str (String.ofList (cps.map Char.ofNat))))
   | .name x _ =>
     if x == "__debug__" then none       -- only the documented `if __debug__` tests are given a meaning (see `condE`)
-    else (match s.lookup x with | some v => some (.ok v) | none => some (.error "NameError"))
+    else (match s.lookup x with
+      | some (.mod _) => none             -- what an import bound is opaque: using it is outside the core
+      | some v => some (.ok v)
+      | none => some (.error "NameError"))
   | .unaryOp .not_ e => (match evalE s e with
       | some (.ok v) => some (.ok (.bool (!v.truthy)))
       | r => r)
@@ -224,6 +231,29 @@ def raiseName : Option Expr → Option Expr → Option String
   | some (.call (.name n _) [] []), none => some n
   | _, _ => none
 
+def firstComponent (dotted : String) : String := (dotted.splitOn ".").headD dotted
+
+/-- `import a.b as c`: one import event (what the import machinery is asked for); the bound name is `c`, or the
+    first component `a` -/
+def importOne (s : St) (a : Alias) : St :=
+  let bound := a.asname.getD (firstComponent a.name)
+  let s' := s.assign bound (.mod a.name)
+  { s' with imports := s'.imports ++ ["import " ++ a.name] }
+
+def importAll (s : St) (names : List Alias) : St := names.foldl importOne s
+
+def fromName (m : Option String) (level : Nat) : String := String.ofList (List.replicate level '.') ++ m.getD ""
+
+/-- `from m import x as y`: one event per name -/
+def importFromOne (m : Option String) (level : Nat) (s : St) (a : Alias) : St :=
+  let bound := a.asname.getD a.name
+  let s' := s.assign bound (.mod (fromName m level ++ ":" ++ a.name))
+  { s' with imports := s'.imports ++ ["from " ++ fromName m level ++ " import " ++ a.name] }
+
+def importFromAll (m : Option String) (level : Nat) (s : St) (names : List Alias) : St := names.foldl (importFromOne m level) s
+
+def hasStar (names : List Alias) : Bool := names.any fun a => a.name == "*"
+
 /-- statements without a nested block and without a call of a table function -/
 def simpleExec (s : St) : Stmt → Res Flow
   | .pass => .ok (.normal s)
@@ -243,6 +273,8 @@ def simpleExec (s : St) : Stmt → Res Flow
      | some (x, c) => evalThen s (.binOp (.name x c) op e) (fun v => .ok (.normal (s.assign x v)))
      | none => .stuck)
   | .assert_ c _ => evalThen s c (fun v => if v.truthy then .ok (.normal s) else .raised "AssertionError" s)
+  | .import_ names => .ok (.normal (importAll s names))
+  | .importFrom m names level => if hasStar names then .stuck else .ok (.normal (importFromAll m level s names))
   | .raise_ e c =>
     (match raiseName e c with
      | some n => .raised n s
@@ -419,13 +451,13 @@ def callFn (ft : RunEnv) (fuel : Nat) (s : St) (f : String) (args : List Expr) (
        else match fuel with
          | 0 => .timeout
          | n + 1 =>
-           let inner : St := { globals := s.globals, locals := some (params.zip vs), declGlobal := declaredGlobals body, out := s.out }
+           let inner : St := { globals := s.globals, locals := some (params.zip vs), declGlobal := declaredGlobals body, out := s.out, imports := s.imports }
            match asCall (execL ft n inner body) with
            | .ok (.returned v s') =>
-             let back : St := { s with globals := s'.globals, out := s'.out }
+             let back : St := { s with globals := s'.globals, out := s'.out, imports := s'.imports }
              .ok (.normal (match target with | some x => back.assign x v | none => back))
            | .ok _ => .stuck
-           | .raised x s' => .raised x { s with globals := s'.globals, out := s'.out }
+           | .raised x s' => .raised x { s with globals := s'.globals, out := s'.out, imports := s'.imports }
            | .stuck => .stuck
            | .timeout => .timeout
      | none => .stuck)
@@ -439,6 +471,7 @@ structure Obs where
   out : List String
   ending : String            -- "normal", "raised:<name>", "stuck", "timeout"
   globals : Env
+  imports : List String := []    -- import events, in order
   deriving Repr, DecidableEq
 
 /-- the table entry a top-level statement contributes: plain `def`s with plain positional parameters -/
@@ -458,15 +491,15 @@ def collect : List Stmt → FTab
 
 def observe (r : Res Flow) (fallback : St) : Obs :=
   match r with
-  | .ok (.normal s) => ⟨s.out, "normal", s.globals⟩
-  | .ok (.returned _ s) => ⟨s.out, "stuck", s.globals⟩      -- `return` outside a function
-  | .ok (.broke s) => ⟨s.out, "stuck", s.globals⟩
-  | .ok (.continued s) => ⟨s.out, "stuck", s.globals⟩
-  | .raised x s => ⟨s.out, "raised:" ++ x, s.globals⟩
-  | .stuck => ⟨fallback.out, "stuck", fallback.globals⟩
-  | .timeout => ⟨fallback.out, "timeout", fallback.globals⟩
+  | .ok (.normal s) => ⟨s.out, "normal", s.globals, s.imports⟩
+  | .ok (.returned _ s) => ⟨s.out, "stuck", s.globals, s.imports⟩      -- `return` outside a function
+  | .ok (.broke s) => ⟨s.out, "stuck", s.globals, s.imports⟩
+  | .ok (.continued s) => ⟨s.out, "stuck", s.globals, s.imports⟩
+  | .raised x s => ⟨s.out, "raised:" ++ x, s.globals, s.imports⟩
+  | .stuck => ⟨fallback.out, "stuck", fallback.globals, fallback.imports⟩
+  | .timeout => ⟨fallback.out, "timeout", fallback.globals, fallback.imports⟩
 
-def St.init : St := ⟨[], none, [], []⟩
+def St.init : St := ⟨[], none, [], [], []⟩
 
 def run (fuel : Nat) (m : Module) : Obs := observe (execL ⟨collect m.body, false⟩ fuel St.init m.body) St.init
 
